@@ -22,6 +22,18 @@ import (
 	"gorm.io/gorm"
 )
 
+// probe (noted in the evidence, not judged): db.Model(&T{}).Save(&v) with a value other than v takes the Dest != Model
+// path of ConvertToAssignments: the key goes into SET, no WHERE is built, gorm answers ErrMissingWhereClause and stores
+// nothing. The generators only use Model(&v) with the saved value itself.
+func c16SaveModelProbe(r *Result, rng *rand.Rand, tier string) {
+	e := c16Open()
+	e.setTable(false, [][]int{{1, 1, 1, 0, 7, 8, 2, 2, 0}})
+	res := e.db.Model(&C16U{}).Save(c16Mk(false, []int{1, 2, 0, 0, 7, 8, 0, 0, 0}))
+	r.Note("probe Model(&C16U{}).Save(&v): error class %q, table %v", c16ErrClass(res.Error), e.dump(false))
+}
+
+func init() { register("C16", c16SaveModelProbe) }
+
 var c16GoNames = []string{"ID", "Name", "Age", "Email", "Code", "Rank", "CreatedAt", "UpdatedAt", "Note", "DeletedAt"}
 
 func c16Spell(c, sp int, soft bool) string {
